@@ -433,9 +433,13 @@ def _assign_form(ip: Interp, clause: str, env: dict, modifies: list[str]) -> boo
         old = sub.ev(node.args[1])
         st = sub.seq_from_end(old, 1)
         if st is not None:
-            rest = ip.p.fresh('frames_left', old.sort())
-            ip.p.assume(z3.Length(rest) >= 1)
-            set_(sub.seq_join(sub.seq_parts(st[0]) + [rest], old.sort()))
+            es = old.sort().basis()
+            if ip.p.fork(ip.p.fresh('one_frame_left', z3.BoolSort())):
+                parts = [z3.Unit(ip.p.fresh('frame_left', es))]
+            else:
+                parts = [ip.p.fresh('frames_left', old.sort()), z3.Unit(ip.p.fresh('frame_left_a', es)),
+                         z3.Unit(ip.p.fresh('frame_left_b', es))]
+            set_(sub.seq_join(sub.seq_parts(st[0]) + parts, old.sort()))
             return True
         return False
     if isinstance(node, ast.Call) and isinstance(node.func, ast.Name) and node.func.id == 'top_only' \
